@@ -465,7 +465,7 @@ extern "C" {
 #endif
 #if defined(MC_ASAN) && defined(MC_MAIN)
 __attribute__((used, visibility("default"))) const char* __asan_default_options() {
-  return "halt_on_error=0:detect_leaks=0:allocator_may_return_null=1:max_allocation_size_mb=2048:abort_on_error=1:print_summary=1:handle_abort=0:detect_stack_use_after_return=0";
+  return "malloc_context_size=0:halt_on_error=0:detect_leaks=0:allocator_may_return_null=1:max_allocation_size_mb=2048:abort_on_error=1:print_summary=1:handle_abort=0:detect_stack_use_after_return=0";
 }
 __attribute__((used, visibility("default"))) void __asan_on_error() { mc::asan_errors()++; }
 #endif
